@@ -565,7 +565,7 @@ pub fn check(ctx: &mut Ctx, id: &'static str) {
             for c in ["lines-between=0", "lines-between=1", "lines-between=2", "lines-between=3", "strict-line-for-line", "single-line-unwrap", "child-element-in-unwrapped-body"] {
                 ctx.require_class(c);
             }
-            ctx.random("ast-documents", 400, 400_000, 4_000_000, |t| gen(t, which), |c, obs| oracle_c11(c, obs, kf1, false));
+            ctx.random("ast-documents", 400, 400_000, 30_000_000, |t| gen(t, which), |c, obs| oracle_c11(c, obs, kf1, false));
             ctx.reshrink::<AstCase, _, _>("ast-documents", |c, obs| oracle_c11(c, obs, kf1, false), crate::props::clean::shrink_ast);
         }
         Which::C12 => {
@@ -583,7 +583,7 @@ pub fn check(ctx: &mut Ctx, id: &'static str) {
             for c in ["unwrap-nesting-depth>=2", "block-on-line-1", "tab-unit", "block-after-empty-first-line"] {
                 ctx.require_class(c);
             }
-            ctx.random("ast-documents", 400, 800_000, 6_000_000, |t| gen(t, which), |c, obs| oracle_c12(c, obs, kf1, false));
+            ctx.random("ast-documents", 400, 800_000, 30_000_000, |t| gen(t, which), |c, obs| oracle_c12(c, obs, kf1, false));
             ctx.reshrink::<AstCase, _, _>("ast-documents", |c, obs| oracle_c12(c, obs, kf1, false), crate::props::clean::shrink_ast);
         }
         Which::C13 => {
@@ -601,7 +601,7 @@ pub fn check(ctx: &mut Ctx, id: &'static str) {
             for c in ["formula b=1 a=1", "formula b=0 a=0", "formula b=3 a=3", "removed-block-in-pending-parent"] {
                 ctx.require_class(c);
             }
-            ctx.random("ast-documents", 400, 400_000, 4_000_000, |t| gen(t, which), |c, obs| oracle_c13(c, obs, kf1, false));
+            ctx.random("ast-documents", 400, 400_000, 30_000_000, |t| gen(t, which), |c, obs| oracle_c13(c, obs, kf1, false));
             ctx.reshrink::<AstCase, _, _>("ast-documents", |c, obs| oracle_c13(c, obs, kf1, false), crate::props::clean::shrink_ast);
         }
     }
